@@ -44,11 +44,17 @@ def check(repo: Repo, rep, tier):
     from .C15 import fmt_degrade
 
     fmt_degrade(repo, rep)
+    from .C15 import fmt_no_cache
+
+    fmt_no_cache(repo, rep)
+    from .C10 import zip_lockstep
+
+    zip_lockstep(repo, rep)
 
 
 def codegen_roots(repo: Repo) -> List[Func]:
     roots: List[Func] = []
-    for key in ("_utils.py::value_to_token", "_code_repr.py::code_repr", "_code_repr.py::mocked_code_repr", "_code_repr.py::value_code_repr", "_code_repr.py::code_repr_dispatch"):
+    for key in ("_utils.py::value_to_token", "_code_repr.py::code_repr", "_code_repr.py::mocked_code_repr", "_code_repr.py::value_code_repr", "_code_repr.py::code_repr_dispatch", "_source_file.py::SourceFile._value_to_code", "_source_file.py::SourceFile._token_to_code"):
         f = repo.find_func(*key.split("::"))
         if f is not None:
             roots.append(f)
@@ -402,9 +408,23 @@ def codegen_pure(repo: Repo, rep):
         for d in f.decorators:
             if d.split(".")[-1] in ("lru_cache", "cache", "cached_property"):
                 bad = (f.node, f"is decorated with @{d}")
+        local_names = {tt.id for a in body_nodes(f.node) if isinstance(a, (ast.Assign, ast.AnnAssign)) for tt in (a.targets if isinstance(a, ast.Assign) else [a.target]) if isinstance(tt, ast.Name)}
         for x in body_nodes(f.node):
             if isinstance(x, (ast.Assign, ast.AugAssign)):
                 for t in x.targets if isinstance(x, ast.Assign) else [x.target]:
+                    # a container that outlives the call: reached through state() / self / a local alias of such an attribute
+                    if isinstance(t, ast.Subscript):
+                        base = t.value
+                        if isinstance(base, ast.Name) and base.id in local_names:
+                            for a in body_nodes(f.node):
+                                if isinstance(a, ast.Assign) and any(isinstance(tt, ast.Name) and tt.id == base.id for tt in a.targets):
+                                    base = a.value
+                        root = base
+                        while isinstance(root, (ast.Attribute, ast.Subscript)):
+                            root = root.value
+                        outlives = isinstance(base, ast.Attribute) and ((isinstance(root, ast.Call) and norm(root.func).endswith("state")) or (isinstance(root, ast.Name) and f.params and root.id == f.params[0] and f.cls is not None))
+                        if outlives and f.name not in ("__init__",):
+                            bad = (x, f"stores into `{norm(t.value)}` (= `{norm(base)}`), which outlives the call")
                     if isinstance(t, ast.Subscript) and isinstance(t.value, ast.Name) and t.value.id in f.module.globals_assigned and t.value.id not in f.params and not any(isinstance(a, ast.Assign) and any(isinstance(tt, ast.Name) and tt.id == t.value.id for tt in a.targets) for a in body_nodes(f.node)):
                         bad = (x, f"stores into the module-level `{t.value.id}`")
             if isinstance(x, ast.Call) and isinstance(x.func, ast.Attribute) and x.func.attr in ("setdefault", "update", "append", "add") and isinstance(x.func.value, ast.Name) and x.func.value.id in f.module.globals_assigned and x.func.value.id not in f.params and not any(isinstance(a, ast.Assign) and any(isinstance(tt, ast.Name) and tt.id == x.func.value.id for tt in a.targets) for a in body_nodes(f.node)):
